@@ -124,6 +124,8 @@ def cut_scripts(rng, n, quick, slicer):
                 ops.append("loading")
             prev = c
         ops += [slicer(prev, n), "finish"]
+        if rng.random() < 0.3:
+            ops = ["newwide"] + ops          # the same image with 32-bit Modular buffers forced (C12: same samples)
         out.append((cs, "script " + " ".join(ops)))
     return out
 
